@@ -8,6 +8,8 @@ use crate::rng::Rng;
 const NAMES: &[&str] = &["a", "b", "user", "id", "posts", "Query", "User", "Node", "x1", "_", "__typename", "_9", "camelCase", "SHOUT", "f", "edges", "node", "Float", "Int"];
 const KEYWORD_NAMES: &[&str] = &[
     "type", "query", "mutation", "subscription", "fragment", "input", "extend", "schema", "implements", "repeatable", "from", "import", "scalar", "union", "enum", "interface", "directive", "onward", "trueish", "nullable", "on",
+    // names that merely begin with a keyword (of the grammar or of the #import extension)
+    "fromCart", "from_", "from9", "importer", "typeName", "queryRoot", "fragments", "extended", "inputs", "enumerate", "unions", "interfaces", "directives", "scalars", "implementsX", "repeatableX", "falsey", "nullish", "on_", "onX", "schemaless", "mutations", "subscriptions",
 ];
 const HOSTILE_CHARS: &[&str] = &["\"", "\\", "`", "${", "*/", "\"\"\"", "\n", "  ", "\t", "é", "日本語", "𝒳", "😀", "/", "#", "'", "{", "}", "$", "\u{7f}", "\u{0}", "\u{1}", "\u{feff}", "\\n", "\\u0041", "\u{8}", "\u{c}", "\r", "\u{b}", "\u{2028}"];
 const WORDS: &[&str] = &["The", "quick", "brown", "fox", "id", "of", "user", "deprecated", "use", "instead", "x", ""];
